@@ -88,6 +88,7 @@ class Ctx:
         kw.setdefault('statistics', P.get('statistics', False))
         kw.setdefault('kinds', P.get('kinds', scn_mod.KINDS))
         kw.setdefault('tags', P.get('tags', True))
+        kw.setdefault('expire_pos', P.get('expire_pos', True))
         if P.get('keypool'):
             kw.setdefault('keypool', KEYPOOL)
         if P.get('cache_prelude'):
@@ -1020,6 +1021,18 @@ def jobs(tier):
             add('ob_expire', N=N, page=page, expire_pos=False)
             for how in ('iter', 'reversed', 'iterkeys', 'iterkeys_rev'):
                 add('ob_iter', N=N, page=page, how=how)
+        # inline rows only: the `filename` column is then a plain NULL for the code under test (with file-backed rows possible it is a
+        # symbolic name object, and an `is None` test on it cannot be steered)
+        for pol in ('none', 'least-recently-stored'):
+            add('ob_set', weight=N ** 2, N=N, policy=pol, kinds=('int',))
+        add('ob_add', weight=N ** 2, N=N, policy='none', kinds=('int',))
+        add('ob_incr', weight=N ** 2, N=N, policy='none', kinds=('int',))
+        add('ob_touch', N=N, kinds=('int',))
+        add('ob_pop', N=N, kinds=('int',))
+        # stored expiry times of any sign, 0.0 included (an item stored with a negative ttl, or under a clock that reads below zero)
+        for fn_, ex_ in (('ob_get', {}), ('ob_getitem', {'via': 'getitem'}), ('ob_contains', {}), ('ob_pop', {}), ('ob_touch', {}), ('ob_add', {'policy': 'none'}), ('ob_incr', {'policy': 'none'}),
+                         ('ob_delete', {'via': 'delete'}), ('ob_peekitem', {'last': True}), ('ob_peekitem', {'last': False})):
+            add(fn_, weight=2, N=N, expire_pos=False, **ex_)
         if quick:
             # three rows over pages of one row: a page boundary with a full page after it
             for how in ('iter', 'reversed', 'iterkeys', 'iterkeys_rev'):
@@ -1053,7 +1066,7 @@ def jobs(tier):
         out.append(dict(id=func[3:] + '.busy.retry', func=func, params=dict(N=NB, busy=1, retry=True, page=1), tags=['C14'], functions=FUNCS[func],
                         weight=5, must_reach=['lock_busy'], all_clauses=True))
     for func, extra in (('ob_clear', {}), ('ob_evict', {}), ('ob_expire', {}), ('ob_cull', {'policy': 'least-recently-stored', 'batch': 1}), ('ob_cull', {'policy': 'least-frequently-used', 'batch': 1})):
-        out.append(dict(id=func[3:] + '.busy.later.' + SHORT.get(extra.get('policy'), ''), func=func, params=dict(N=2, busy='later', bulk=True, page=1, **extra), tags=['C14', 'C08'],
+        out.append(dict(id=func[3:] + '.busy.later.' + SHORT.get(extra.get('policy'), ''), func=func, params=dict(N=2, busy='later', bulk=True, page=1, **extra), tags=['C14', 'C08', 'C13', 'C03'],
                         functions=FUNCS[func], weight=8, must_reach=['timeout_raised']))
     for pol in ('least-recently-stored', 'none'):
         out.append(dict(id='cull.busy.noretry.' + SHORT[pol], func='ob_cull', params=dict(N=NB, busy=1, bulk=True, policy=pol), tags=['C14', 'C08'], functions=FUNCS['ob_cull'],
